@@ -111,7 +111,7 @@ def main(ctx):
                                            if k.startswith("uri|")}
     for ep in ("named", "mixed", "var+ct", "named+ct", "mixed+ct"):
         ctx.require("endpoint_signature|%s" % ep)
-    for n in ("session_reused", "service_object_falsy", "service_object_truthy"):
+    for n in ("session_reused", "service_object_falsy", "service_object_truthy", "receive_progress_false"):
         ctx.require(n)
     for fw in FWS:
         for beh in BEHAVIOURS:
@@ -486,7 +486,8 @@ def run_case(case):
         return M.Invocation(request or 1001 + i, registration or 500 + i,
                             args=list(ARGS) if a == "full" else None,
                             kwargs=dict(KWARGS) if a == "full" else None,
-                            receive_progress=True if invs[i]["rp"] else None,
+                            # not asked for: the detail is absent - or explicitly false
+                            receive_progress=True if invs[i]["rp"] else (False if case.get("rp_false") else None),
                             caller=777 if a == "full" else None)
     script = case["script"]
     k = 0
@@ -721,6 +722,11 @@ def job(a):
                         for args in (("full", "none") if len(script) == 1 else ("full",)):
                             one_case(acc, dict(base, invs=[{"beh": beh, "rp": rp, "args": args}],
                                                det=det, script=script, coalesce=coalesce))
+                        if not rp and not coalesce and (beh in ("progress_sync", "value") or beh.startswith("later:")):
+                            # the caller says explicitly that it does NOT want progressive results
+                            one_case(acc, dict(base, invs=[{"beh": beh, "rp": rp, "args": "full"}],
+                                               det=det, script=script, coalesce=False, rp_false=True))
+                            acc.inc("receive_progress_false")
                         if len(script) <= 2 and not coalesce:
                             # endpoint signature shapes x register(check_types=True)
                             for ep in ("named", "mixed", "var+ct", "named+ct", "mixed+ct"):
